@@ -91,6 +91,7 @@ pub fn run(kind: &str, args: &[String]) -> i32 {
         "blocks" => blocks(&mut sink, &opts),
         "system" => system(&mut sink, &opts),
         "threadstext" => threads_text(&mut sink, &opts),
+        "extra" => extra(&mut sink, &opts),
         "recorditer" => recorditer(&mut sink, &opts),
         _ => {
             eprintln!("unknown trace kind {kind}");
@@ -1671,6 +1672,41 @@ fn threads_text(sink: &mut Sink, o: &Opts) {
         });
         for ev in results.into_inner().unwrap() {
             sink.emit(ev);
+        }
+    }
+}
+
+/// beyond the listed properties: display() / debug_* of written caches, StackFrame::full_method
+fn extra(sink: &mut Sink, o: &Opts) {
+    let mut rng = Rng::new(o.seed);
+    let mut srcs: Vec<Vec<u8>> = gen::crafted();
+    for k in 0..o.n {
+        let cfg = gen::MapCfg { max_classes: 1 + k % 5, max_members: k % 7, wild: false, noise: k % 3 == 0 };
+        srcs.push(match k % 6 {
+            0 => gen::mapping_long_strings(&mut rng),
+            1 => gen::mapping_big_class(&mut rng),
+            _ => gen::mapping(&mut rng, &cfg),
+        });
+    }
+    for src in &srcs {
+        let Ok(bytes) = crate::handles::write_cache(src) else { continue };
+        let buf = crate::handles::Aligned::new(&bytes);
+        let r = guarded(std::panic::AssertUnwindSafe(|| {
+            let c = proguard::ProguardCache::parse(buf.bytes()).map_err(|e| e.to_string())?;
+            Ok::<_, String>((c.display().to_string(), c.debug_classes().count(), c.debug_members().count(), c.debug_members_by_params().count()))
+        }));
+        match r {
+            Ok(Ok((text, nc, nm, np))) => sink.emit(json!({"t": "display", "bytes": enc::bytes(&bytes), "text": enc::s(&text),
+                                                         "counts": {"classes": nc, "members": nm, "byparams": np}})),
+            Ok(Err(e)) => sink.emit(json!({"t": "display", "bytes": enc::bytes(&bytes), "text": [], "counts": {"classes": 0, "members": 0, "byparams": 0}, "error": e})),
+            Err(p) => sink.emit(json!({"t": "display", "bytes": enc::bytes(&bytes), "text": [], "counts": {"classes": 0, "members": 0, "byparams": 0}, "panic": p})),
+        }
+        let uni = gen::universe(src);
+        for _ in 0..3 {
+            let q = gen::query(&mut rng, &uni, "frame");
+            let (class, method) = (crate::handles::utf8(&q["frame"]["class"]), crate::handles::utf8(&q["frame"]["method"]));
+            let f = proguard::StackFrame::new(&class, &method, 1);
+            sink.emit(json!({"t": "full_method", "class": enc::s(&class), "method": enc::s(&method), "got": enc::s(&f.full_method())}));
         }
     }
 }
